@@ -21,6 +21,7 @@
          lines <lstruct> <ignored>                                  -> unchanged | lines=<ids>
          psend <keep> <lstruct> <ignored>                           -> same | lines=<ids>     (proxy sendAnswer)
          csend <keep> x<broker> x<cache> x<front> <lstruct> <ign.>  -> same | lines=<ids>     (client Negotiate)
+         csendc: as csend, the channel taken from NewSnowflakeClient(config)
       "same" = the text that went out is byte-identical to the text that came in
 
    remoteIPFromSDP with its partial operations (Model/SessDescPeer.v):
@@ -233,7 +234,7 @@ Definition run (args : list bytes) : bytes :=
         end
       else ERR_BADCASE
   | [op; k; b; c; f; st; _] =>
-      if beq op (bs "csend") then
+      if beq op (bs "csend") || beq op (bs "csendc") then
         match bool_parse k, payload_parse b, payload_parse c, payload_parse f, lstruct_parse st with
         | Some keep, Some bu, Some cu, Some fd, Some p =>
             osent_print p (client_offer_sent (mkCC bu cu fd keep) true (option_map snd p))
